@@ -70,6 +70,22 @@ CLAIMED["C11"] = dict(
    note="Trusted: Coq kernel (closed under the global context); model of read_directories.rs / pmtiles.rs (tied by the correspondence run); hypothesis tree_ok on the archive; extraction + driver + harness.",
    technique="Coq proof (simulation of filtered vs unfiltered walk; induction over entries and depth fuel; N.iter lemma for run expansion) + correspondence run + restriction oracle",
    design="7/C11")
+CLAIMED["C15"] = dict(
+   category="fault_enumeration",
+   text="Exhaustive fail-stop fault enumeration on the implementation, backed by a Coq theorem on the writer's operation log. For every scenario (archive write with 0/3/30 tiles x 4 codecs x sync/async, leaf-spilling archives; open + fetch of every tile on library-written and foreign archives; Directory / Header readers and writers; write_directories / read_directories) the fault-free run is recorded (N stream operations) and for every k < N the run in which operation k and all later ones fail is executed: the call must return Err, never Ok, never panic; additionally, after the stream started failing, retried and twin lookups must keep failing. Coq (C15_archive_writer): in the model's operation log of to_writer every drop-time (error-swallowing) write of a sync codec writer is followed by a propagating operation, so every fault index yields an error; C15_lost_in_drop exhibits the one exception, the stand-alone sync Directory::to_writer with a codec (known finding D6).",
+   note="Level fault_enumeration: the decision is the exhaustive enumeration over k on the implementation; the theorem covers the writers' ordering argument only (readers' propagation is `?` on every call and is enumerated, not modelled). Trusted: instrumented stream wrappers in the harness; Coq kernel for the log theorem; model of the writers' operation order (tied by the write/seek log comparison of C17/C18).",
+   technique="Exhaustive fault-index enumeration on instrumented streams + Coq proof on the writer's operation log (last operation propagates)",
+   design="7/C15")
+CLAIMED["C17"] = dict(
+   text="Coq theorems C17_torn_before_header_rejected, C17_header_last, C17_prefixes_rejected: in the model's operation log of to_writer into a fresh stream every write before the header write lands at a position >= 127 (directories, metadata, leaves, tile data, including the abandoned first root of a spill), the header is ONE 127-byte write that comes after all of them and only a flush and a seek follow it; and EVERY image produced by writes at positions >= 127 only - any prefix, any fragmentation of the section writes, any partially completed write - is rejected by the reader (its first 127 bytes are absent or zero, so the magic check fails). Hence the only torn outputs that open are complete ones. Tie: the implementation's recorded write/seek log equals the model's (hist op w:, coalesced) for all codecs, sync/async, with and without leaf spill; direct oracle replays every prefix of the recorded operations and opens it with the Rust readers.",
+   note="Trusted: Coq kernel (Print Assumptions: closed, or the Flocq/Reals axioms through the header codec); model of the writers' operation order (tied by the log comparison); header write atomic, as the property states; extraction + driver + harness.",
+   technique="Coq proof (operation-log invariant 'all writes >= start+127 until the single header write'; zero-prefix images fail the magic check) + log correspondence + exhaustive prefix replay",
+   design="7/C17")
+CLAIMED["C18"] = dict(
+   text="Coq theorems C18_start_position_partial and C18_all_writes_after_start: for every archive, API family, pre-existing stream image and starting position P, a successful to_writer leaves the bytes before P untouched, puts the 127-byte header at P, records every section offset relative to P (root at 127, sections consecutive) and leaves the stream at P + tile_data_offset + tile_data_length; every write of the call is at or after P. The remaining clause (bytes from P on are byte-identical to the archive written at 0) is decided by the correspondence run (model vs Rust image, position and write/seek log at P in {0, 1, 10, 127, 128, 4096, random}, pre-filled / shorter / empty streams, with and without leaf spill, sync and async) and the direct oracle comparing with the archive written at 0 and re-reading from P.",
+   note="Trusted: Coq kernel; model of pmtiles.rs / write_directories.rs over the stream model with operation log (tied by image + log comparison); extraction + driver + harness.",
+   technique="Coq proof (operation-log extension invariant, before/section lemmas on the stream model) + correspondence run + start-position oracle",
+   design="7/C18")
 PENDING_REASON = "check not built yet in this revision of /verif (the design in DESIGN.md section 7 covers it); no claim is made until its theorems and correspondence run exist"
 props = [json.loads(l)["id"] for l in open(os.path.join(ROOT, "properties.jsonl"))]
 checks = []
